@@ -91,7 +91,10 @@ func genC27(gen *sim.Stream) *c27Stream {
 				fmt.Sprintf("var e%d = undefinedEarlier%d +\n\t1\n", n, n),
 				fmt.Sprintf("var z%d = 0\nvar e%d = 10 /\n\tz%d\n", n, n, n),
 				fmt.Sprintf("func bad%d() {\n\tvar m map[string]int\n\tm[\"a\"] = 1\n}\nbad%d()\n", n, n),
-			}[gen.Draw(3)])
+				fmt.Sprintf("var q%d = ]\n", n),
+				fmt.Sprintf("var u%d = \"never closed\n", n),
+				fmt.Sprintf("var r%d = 'x\n", n),
+			}[gen.Draw(6)])
 			st.ChunksPrev++
 			st.Items = append(st.Items, "failing-chunk")
 		}
